@@ -97,7 +97,8 @@ impl<I: RecvmsgSyscall> RecvmsgSyscall for NioRecvmsgSyscall<I> {
             }
             let error_kind = Error::last_os_error().kind();
             if error_kind == ErrorKind::WouldBlock {
-                if received > 0 {
+                if received > 0 || !blocking {
+                    // the caller made the socket non-blocking, report EAGAIN like the native call
                     break;
                 }
                 //wait read event
